@@ -280,6 +280,7 @@ func runClientLifeCase(c cfg, seed uint64, nconn int, stopTwice, cbShutdown bool
 			continue
 		}
 		res.Violate(fmt.Sprintf("C07 leak class=%s site=%s registered=%v", fi.Class, fi.Site, fi.Registered), fmt.Sprintf("client engine %s: descriptor %d (%s, created in %s) still open after Client.Stop returned", c, fi.FD, fi.Class, fi.Site), map[string]any{"config": c.String()})
+		_ = unix.Close(fi.FD) // reported; reclaimed
 	}
 	if stopTwice {
 		// a second Stop must be harmless: descriptors opened by others meanwhile on the freed numbers stay untouched
@@ -383,6 +384,7 @@ func runStartFailCase(c cfg, seed uint64, call int, k int64, client bool, keys m
 			continue
 		}
 		res.Violate(fmt.Sprintf("C07 leak class=%s site=%s history=failed-start", fi.Class, fi.Site), fmt.Sprintf("%s failed (%s #%d EMFILE) but descriptor %d (%s, created in %s) is still open", what, vsys.CallName(call), k, fi.FD, fi.Class, fi.Site), map[string]any{"config": c.String()})
+		_ = unix.Close(fi.FD) // reported; reclaimed
 	}
 	keys[fmt.Sprintf("failed-start|%s|%s|k=%d", what, vsys.CallName(call), k)] = struct{}{}
 	return true
@@ -472,6 +474,7 @@ func runStartBusyCase(kind string, keys map[string]struct{}) (ran bool) {
 			continue
 		}
 		res.Violate(fmt.Sprintf("C07 leak class=%s site=%s history=failed-start", fi.Class, fi.Site), fmt.Sprintf("Run failed (%v) because the address is in use (%s) but descriptor %d (%s, created in %s) is still open", err, kind, fi.FD, fi.Class, fi.Site), nil)
+		_ = unix.Close(fi.FD) // reported; reclaimed
 	}
 	// independent of the ledger: the process's descriptor table is what it was
 	for fd, id := range fdTable() {
